@@ -26,6 +26,10 @@ CORRESPONDENCE_ONLY = ["dtype tag", "np.asarray conversion"]
 ASSUMPTIONS = ["numpy .view() between same-width dtypes preserves bit patterns"]
 
 
+def _mode(p):
+    return "near" if p.get("near") else False
+
+
 def cases(rng, tier):
     out = []
     arrs = rlgen.arrays_exhaustive(5 if tier == "quick" else 7)
@@ -33,13 +37,38 @@ def cases(rng, tier):
         dts = gens.pick_dtypes(rng, "quick", 2) if tier == "quick" else gens.DTYPES
         for dt in dts:
             out.append({"a": a, "dtype": dt})
+    # letters mapped to NEIGHBOURING values (2**63 / 2**63+1, 1.0 / 1.0+eps, max-1 / max): distinct cells that any detour
+    # through another representation would merge
+    for a in rlgen.arrays_exhaustive(3):
+        for dt in gens.DTYPES:
+            out.append({"a": a, "dtype": dt, "near": True})
     for _ in range(300 if tier == "quick" else 3000):
-        out.append({"a": rlgen.array_random(rng, 60), "dtype": rng.choice(gens.DTYPES)})
+        out.append({"a": rlgen.array_random(rng, 60), "dtype": rng.choice(gens.DTYPES), "near": rng.random() < 0.3})
+    # canonical form of DERIVED run-length arrays (stepped slices, ufuncs of two run-length operands, concatenation);
+    # what they decode to is C15 / C16, here only "no empty run" and (where promised) "no equal neighbours" are judged
+    for a in rlgen.arrays_exhaustive(4 if tier == "quick" else 5, min_len=2):
+        n = len(a)
+        for k in (2, -2, 3, -1):
+            out.append({"a": a, "dtype": "int64", "derived": {"t": "slice", "s": [None, None, k]}})
+        out.append({"a": a, "dtype": "int64", "derived": {"t": "binop", "b": [rng.randrange(3) for _ in a], "f": rng.choice(["add", "maximum", "multiply", "equal"])}})
+        out.append({"a": a, "dtype": "int64", "derived": {"t": "concat", "b": [a[-1]] + [rng.randrange(3) for _ in range(rng.randint(0, 3))]}})
+    for _ in range(300 if tier == "quick" else 3000):
+        a = rlgen.array_random(rng, 40)
+        n = len(a)
+        t = rng.choice(["slice", "slice", "binop", "concat"])
+        if t == "slice":
+            x, y, k = gens.slice_random(rng, n, big=True)
+            d = {"t": "slice", "s": [x, y, k]}
+        elif t == "binop":
+            d = {"t": "binop", "b": (rlgen.array_random(rng, n) * n)[:n], "f": rng.choice(["add", "maximum", "multiply", "equal", "bitwise_and"])}
+        else:
+            d = {"t": "concat", "b": rlgen.array_random(rng, 10)}
+        out.append({"a": a, "dtype": rng.choice(["int64", "int32", "uint8", "bool"]), "derived": d})
     return out
 
 
 def key(p):
-    return (tuple(p["a"]), p["dtype"])
+    return (tuple(p["a"]), p["dtype"], bool(p.get("near")), engine.stable_hash(p.get("derived")))
 
 
 def nontrivial(p):
@@ -49,13 +78,49 @@ def nontrivial(p):
 def distribution(ps):
     d = rlgen.rl_distribution([p["a"] for p in ps])
     d["dtypes"] = gens.hist(p["dtype"] for p in ps)
+    d["neighbouring_value_letters"] = sum(1 for p in ps if p.get("near"))
+    d["derived_arrays"] = gens.hist(p["derived"]["t"] for p in ps if "derived" in p)
     return d
+
+
+def _derived(p, arr):
+    """(numpy result on the dense array, is the joined form promised?)"""
+    d = p["derived"]
+    if d["t"] == "slice":
+        sl = slice(*d["s"])
+        return arr[sl], d["s"][2] not in (None, 1)
+    other = rlgen.to_values(d["b"], p["dtype"], "small" if p["dtype"] != "bool" else False)
+    if d["t"] == "binop":
+        with np.errstate(all="ignore"):
+            return getattr(np, d["f"])(arr, other), True
+    return np.concatenate([arr, other]), False
+
+
+def _run_derived(p):
+    from npstructures import RunLengthArray
+    def f():
+        arr = rlgen.to_values(p["a"], p["dtype"], "small" if p["dtype"] != "bool" else False)
+        d = p["derived"]
+        r = RunLengthArray.from_array(arr)
+        if d["t"] == "slice":
+            res = r[slice(*d["s"])]
+        else:
+            other = RunLengthArray.from_array(rlgen.to_values(d["b"], p["dtype"], "small" if p["dtype"] != "bool" else False))
+            with np.errstate(all="ignore"):
+                res = getattr(np, d["f"])(r, other) if d["t"] == "binop" else np.concatenate([r, other])
+        dense, joined = _derived(p, arr)
+        if len(dense) == 0:
+            return {"k": "obs", "canonical": canon(True)}          # the empty result has no canonical form to judge
+        return {"k": "obs", "canonical": guarded(lambda: rlgen.canonical_info(res, joined)), "to_array": guarded(lambda: res.to_array())}
+    return guarded(f)
 
 
 def run_impl(p):
     from npstructures import RunLengthArray
+    if "derived" in p:
+        return _run_derived(p)
     def f():
-        arr = rlgen.to_values(p["a"], p["dtype"])
+        arr = rlgen.to_values(p["a"], p["dtype"], _mode(p))
         before = arr.copy()
         r = RunLengthArray.from_array(arr)
         o = {"k": "obs"}
@@ -75,7 +140,13 @@ def run_impl(p):
 
 
 def oracle(p):
-    arr = rlgen.to_values(p["a"], p["dtype"])
+    if "derived" in p:
+        arr = rlgen.to_values(p["a"], p["dtype"], "small" if p["dtype"] != "bool" else False)
+        dense, _ = _derived(p, arr)
+        if len(dense) == 0:
+            return {"k": "obs", "canonical": canon(True)}
+        return {"k": "obs", "canonical": canon(True), "to_array": canon(dense)}
+    arr = rlgen.to_values(p["a"], p["dtype"], _mode(p))
     n = len(arr)
     with np.errstate(all="ignore"):
         ne = arr[1:] != arr[:-1]
@@ -94,7 +165,7 @@ def oracle(p):
 def _nan_class(p):
     if np.dtype(p["dtype"]).kind != "f":
         return None
-    L = rlgen.letters(p["dtype"])
+    L = rlgen.letters(p["dtype"], _mode(p))
     for i, v in enumerate(L):
         if v != v:
             return i
@@ -102,11 +173,13 @@ def _nan_class(p):
 
 
 def lean_request(p):
-    return {"op": "RL.encode", "a": rlgen.lean_classes(p["a"], p["dtype"]), "nan": _nan_class(p)}
+    if "derived" in p:
+        return None         # the theorems about derived arrays are C15_slice / C16_binary_canonical / C16_concat
+    return {"op": "RL.encode", "a": rlgen.lean_classes(p["a"], p["dtype"], _mode(p)), "nan": _nan_class(p)}
 
 
 def decode_lean(p, resp):
-    L = rlgen.letters(p["dtype"])
+    L = rlgen.letters(p["dtype"], _mode(p))
     def conv(j):
         o = {"k": "obs"}
         o["to_array"] = canon(np.array([L[c] for c in j["to_array"]], dtype=p["dtype"]))
